@@ -5,6 +5,9 @@ import atexit, hashlib, json, os, re, shutil, subprocess, sys, tempfile, time
 
 VERIF = os.path.dirname(os.path.dirname(os.path.abspath(__file__)))
 REPO = os.environ.get("VERIF_REPO", "/repo")
+# evidence/ and replays/ are written under OUT (default /verif); runs against a seeded change in a scratch
+# worktree (VERIF_REPO=...) set VERIF_OUT so that the committed evidence is never overwritten by them
+OUT = os.environ.get("VERIF_OUT", VERIF)
 COQ = os.path.join(VERIF, "coq")
 OCAML = os.path.join(VERIF, "ocaml")
 HARNESS = os.path.join(VERIF, "harness", "go")
@@ -361,8 +364,8 @@ class Outcome:
 
 
 def write_replay(pid, v, idx):
-    os.makedirs(os.path.join(VERIF, "replays"), exist_ok=True)
-    path = os.path.join(VERIF, "replays", "%s-%d-%d.json" % (pid, seed(), idx))
+    os.makedirs(os.path.join(OUT, "replays"), exist_ok=True)
+    path = os.path.join(OUT, "replays", "%s-%d-%d.json" % (pid, seed(), idx))
     with open(path, "w") as f:
         json.dump({"property": pid, "what": v["what"], "no_failing_input_found": v["no_input"],
                    "replay": v["replay"], "repo": repo_state()}, f, indent=1, default=str)
@@ -413,8 +416,8 @@ def finish(out, ob, level="proof", extra_trusted=()):
     ev = {"property_id": pid, "tier": out.tier, "seed": seed(), "level": level, "coverage": cov,
           "assumptions": out.assumptions, "wall_s": round(time.time() - T0, 2),
           "violations": len(out.violations), "notes": out.notes}
-    os.makedirs(os.path.join(VERIF, "evidence"), exist_ok=True)
-    with open(os.path.join(VERIF, "evidence", pid + ".json"), "w") as f:
+    os.makedirs(os.path.join(OUT, "evidence"), exist_ok=True)
+    with open(os.path.join(OUT, "evidence", pid + ".json"), "w") as f:
         json.dump(ev, f, indent=1, default=str)
     log("%s: %d obligations, %d discharged, %d evaluations, %d violations, %.1fs" % (
         pid, len(names), len(discharged), cov.get("evaluations", 0), len(out.violations), time.time() - T0))
